@@ -219,6 +219,11 @@ Proof.
   - apply IH.
 Qed.
 
+Lemma sym_finish (X : outcome smatrix) :
+  after (match X with Ok r => Next (R := list ((N * N) * F)) r | _ => Panics end) (fun result : list ((N * N) * F) => Ret (S := unit) result)
+  = match X with Ok r => Ret r | _ => Panics end.
+Proof. destruct X; reflexivity. Qed.
+
 Theorem imp_Symmetrical (m : smatrix) :
   imp_alignf_SubstitutionMatrix_Symmetrical m
   = match symmetrical m with Ok r => Ret r | _ => Panics end.
@@ -226,5 +231,5 @@ Proof.
   unfold imp_alignf_SubstitutionMatrix_Symmetrical, symmetrical. cbv zeta.
   unfold go_range, indexed.
   change (go_iter _ ?l []) with (go_iter (sym_body m) l []).
-  rewrite sym_loop. unfold smatrix, key, byte in *. destruct (fold_left (sym_step m) m (Ok [])); reflexivity.
+  rewrite sym_loop. apply sym_finish.
 Qed.
